@@ -471,6 +471,17 @@ FAKE_MATH = types.SimpleNamespace(**{k: getattr(_math, k) for k in dir(_math) if
 FAKE_MATH.ceil = sx_ceil
 FAKE_MATH.floor = sx_floor
 
+
+def sx_pow(x, y):
+    """math.pow on small non-negative integers is exact in double precision: kept as an exact integer so that products
+    with symbolic integers stay in the integer domain (results below 2^53: stated in the stub contract)"""
+    if type(x) is int and type(y) is int and 0 <= y and abs(x) ** y < (1 << 53):
+        return x ** y
+    return _math.pow(x, y)
+
+
+FAKE_MATH.pow = sx_pow
+
 FAKE_HASHLIB = types.SimpleNamespace(sha256=C.sha256_stub, sha512=_hl.sha512, pbkdf2_hmac=_hl.pbkdf2_hmac,
                                      sha1=_hl.sha1, md5=_hl.md5, new=_hl.new)
 
